@@ -1661,3 +1661,36 @@ def rf180(run, units=('mir', 'gen')):
     run.control(rule, 'floating-point comparisons seen by the extractor', tot >= 10)
     run.ob(rule, ('units',), n == 0, {'floating-point ==/!= inspected': tot, 'look-ups in a collection': n})
     return 1
+
+
+# ---------------------------------------------------------------------------------------------
+# RF200: address arithmetic of a store between an overflow producer and its branch
+# ---------------------------------------------------------------------------------------------
+
+def rf200(run):
+    import rf_proto
+    rule = 'RF200'
+    run.rule(rule, 'MIR_finish_func accepts `mov <memory>, reg` between an overflow producer and its bo / bno / ubo / ubno.  simplify_op lowers '
+                   '`T:disp(base, index, scale)` of such a store with MOV / MUL / ADD, and ADD / IMUL overwrite the x86 flags: the lowering '
+                   'instructions have to go in front of the *producer*.  In simplify_op the insertion anchor is moved to a preceding '
+                   'instruction under a test MIR_overflow_insn_code_p (…) of that instruction (and restored afterwards); without it '
+                   '`addo r,a,b; mov i64:24(buf),v; bo L` never takes the branch in generated code (D122)')
+    tu = run.tu('mir')
+    f = tu.func('simplify_op')
+    run.functions_analysed.add(('mir', f.name))
+    cfg = f.cfg
+    moved = []
+    for x in f.walk():
+        if x['k'] == 'BinaryOperator' and x['op'] == '=' and F.src(F.strip(x['c'][0])) == 'insn' and F.strip(x['c'][1])['k'] == 'DeclRefExpr' \
+                and F.strip(x['c'][1]).get('dk') == 'local':
+            b = cfg.block_of(x)
+            conds = rf_proto.dominating_conditions(cfg, b) if b is not None else []
+            if any(t and 'MIR_overflow_insn_code_p' in c and F.strip(x['c'][1])['n'] in c for c, t in conds):
+                moved.append(x)
+    ok = bool(moved)
+    run.ob(rule, ('anchor',), ok, {'anchor moved to the overflow producer at lines': [x['l'] for x in moved]})
+    if not ok:
+        run.violation(rule, f, 'address arithmetic between an overflow producer and its branch', 'simplify_op inserts the MOV / MUL / ADD that lower the '
+                      'address of a store directly in front of the store, also when the store stands between an overflow producer and its '
+                      'branch: the ADD overwrites the flags and the branch on overflow is never taken in generated code', line=f.line)
+    return 1
